@@ -4,6 +4,8 @@ Stream `C04`: lock-step histories; after every call the whole world (every eleme
 parentNode, ownerDocument, isSelfClosing and all navigation properties) is dumped on both sides.
 The oracle evaluates the invariant of the property text itself on the Python object graph after every call.
 """
+import json
+
 from ..core import PropCheck, Case, sx, enc
 from . import c04_dom as D
 
@@ -218,7 +220,13 @@ class Check(PropCheck):
         return D.features(d)
 
     def shrink(self, d):
+        # candidates that were already offered are not offered again (the shrinker restarts after every success)
+        tried = self.__dict__.setdefault('_tried', set())
         for c in D.shrink(d):
+            k = json.dumps(c, sort_keys=True)
+            if k in tried:
+                continue
+            tried.add(k)
             if D.valid_case(c):
                 yield c
 
